@@ -322,7 +322,7 @@ impl TSigner {
             tsig.mac.to_vec(),
             tsig.time,
             Range {
-                start: tsig.time - tsig.fudge as u64,
+                start: tsig.time.saturating_sub(tsig.fudge as u64),
                 end: tsig.time + tsig.fudge as u64,
             },
         ))
